@@ -145,3 +145,22 @@ Theorem C01_history_find_all_exact : forall ops q mode nq,
         Permutation res (filter (sat_opt (nq_crit nq)) (map snd (sc_docs sc))).
 Proof. exact history_find_all_exact. Qed.
 Print Assumptions C01_history_find_all_exact.
+
+(* ---- adequacy of the abstract specification S (Proofs/SpecAdequacyProofs.v): consequences of a_step alone, no store, model or refinement lemma ---- *)
+From Coq Require Import Permutation Sorted.
+From Clover Require Import HistoryProofs CompositeSpec CompositeProofs IndexIndepProofs AbstractSpecProofs SpecAdequacyProofs.
+Theorem C01_spec_find_all_exact : forall a q mode t a' nq sc,
+  a_closed a = false -> a_step (OFindAll q mode) a t a' ->
+  normalize_query (mk_query q) = Some nq -> nq_sort nq = [] -> nq_skip nq = 0 -> nq_limit nq < 0 ->
+  assoc (nq_coll nq) (a_db a) = Some sc ->
+  a' = a /\
+  exists res, t = T_ok (T_of_docs [] mode res) /\
+    Permutation res (filter (sat_opt (nq_crit nq)) (map snd (sc_docs sc))).
+Proof. exact spec_find_all_exact. Qed.
+Print Assumptions C01_spec_find_all_exact.
+
+Theorem C01_spec_order_not_determined :
+  exists t1 t2, a_step (OFindAll (RProofs.ex_c, []) 2) ns_a t1 ns_a /\
+                a_step (OFindAll (RProofs.ex_c, []) 2) ns_a t2 ns_a /\ t1 <> t2.
+Proof. exact spec_find_all_order_not_determined. Qed.
+Print Assumptions C01_spec_order_not_determined.
